@@ -1,6 +1,9 @@
 /-
 C01 — model of the commit path of consensus/raft/consensus.go (core Lean only):
 
+  commit only (since 3d753d4): if err := checkDecodable(op); err != nil { return fmt.Errorf(...) }
+                               -- msgpack encode→decode of the LogOp, BEFORE the retry loop: an operation
+                               -- no replica could read back from the log is refused, nothing is attempted
   commit / AddPeer / RmPeer:  for i := 0; i <= CommitRetries; i++ {
                                  ok, err := redirectToLeader(...)      -- own retry loop, same bound
                                  if err != nil || ok { return err }
@@ -104,5 +107,44 @@ def outer (rs : RedirShape) (os : OuterShape) (retries : Nat) : Nat → Bool →
 /-- `commit(op)` (and `AddPeer`, `RmPeer`, which have the same skeleton) with `CommitRetries = retries` -/
 def commit (rs : RedirShape) (os : OuterShape) (retries : Nat) (oracle : List Outcome) : Result :=
   outer rs os retries (attempts os.inclusive retries) false oracle
+
+/-! ### the decodability gate of `commit` (3d753d4) -/
+
+/-- where the call of `checkDecodable(op)` stands in `commit` -/
+inductive GatePos where
+  | absent
+  | beforeLoop
+  | afterLoop
+  deriving DecidableEq, Repr
+
+/-- statement skeleton of the gate -/
+structure GateShape where
+  /-- one top-level, unconditional `if err := checkDecodable(op); err != nil { … }` on the operation that
+      the loop hands to `CommitOp`; LogPin and LogUnpin both go through `commit` and return its error -/
+  recognised : Bool
+  pos : GatePos
+  /-- the body of that `if` returns a non-nil error -/
+  errReturned : Bool
+  deriving DecidableEq, Repr
+
+def expectedGate : GateShape := { recognised := true, pos := .beforeLoop, errReturned := true }
+
+/-- the check makes the call fail -/
+def gateRefuses (g : GateShape) (decodable : Bool) : Bool := g.errReturned && !decodable
+
+/-- `commit(op)` for an operation which can (`decodable`) or cannot be read back from its msgpack form.
+    With the gate where the code has it, an undecodable operation is answered with an error before
+    anything is attempted. The other positions are what an edit would give: `afterLoop` lets the loop
+    run (the operation may reach the log) and only then turns the answer into an error; `absent` (the
+    code before 3d753d4) never looks. -/
+def commitOp (g : GateShape) (rs : RedirShape) (os : OuterShape) (retries : Nat) (decodable : Bool)
+    (oracle : List Outcome) : Result :=
+  match g.pos with
+  | .beforeLoop =>
+    if gateRefuses g decodable then { err := true, consumed := [] } else commit rs os retries oracle
+  | .afterLoop =>
+    let r := commit rs os retries oracle
+    { r with err := r.err || gateRefuses g decodable }
+  | .absent => commit rs os retries oracle
 
 end CV.C01.Commit
